@@ -359,7 +359,7 @@ type gen struct {
 	r         *rand.Rand
 	s         *schema
 	budget    int
-	shortcuts bool // allow `@t` value shortcuts to structured types (corruption stream only)
+	shortcuts bool    // allow `@t` value shortcuts to structured types (corruption stream only)
 	refP      float64 // extra probability of a scalar ruled by a {type: "@t"} reference (history stream)
 	chain     int     // nesting of scalarTypeFor: types created for the root rule list of other types
 }
